@@ -445,6 +445,12 @@ func (w *world) build(withMutation bool) (*graphql.Schema, error) {
 				return "", errors.New("SECRET-mutation-failed")
 			case 2:
 				return "", graphql.NewSafeError("safe-mutation-failed")
+			case 4:
+				// the resolver's own backend call was cancelled (not the request)
+				return "", context.Canceled
+			case 5:
+				// not client-safe itself, it only wraps an error that is
+				return "", fmt.Errorf("SECRET-mutation-failed: %w", graphql.NewSafeError("safe-BURIED-mutation"))
 			}
 			panic("SECRET-mutation-panicked")
 		})
